@@ -609,8 +609,8 @@ func (f flspec) Shrinks(c *Case) []*Case {
 }
 
 func init() {
-	register(&Info{Prop: "C09", Engine: flspec{}, Level: "exploration", QuickS: 30, ThoroughS: 300,
+	register(&Info{Prop: "C09", Engine: altEngine{[]Engine{flspec{}, flspec{}, modelsim{}, faultsim{}}}, Level: "exploration", QuickS: 40, ThoroughS: 400,
 		RealStub: "real: internal/freelist array and hashmap backends (tag verif: the hashmap's 'any span' choice is lowest/highest/tape-chosen); shadow specification of the allocator written from the property statement; page images parsed by the published layout. No I/O, clock or schedule exists in this component: plain seeded model-based testing (stated plainly)",
 		Rule:     "one evaluation = one seeded sequence of 5-200 allocator operations (Init, Allocate(n), Free(page+overflow), Rollback+Reload, Add/RemoveReadonlyTXID, ReleasePendingPages at transaction boundaries, Write, Read into a fresh instance, Reload, NoSyncReload) over universes of 12-72 page ids, executed on both backends; after every operation free set, pending set, counts, Freed and Copyall are compared with the specification; Allocate must return a run that was entirely free or 0 only when no run exists; released pages must be invisible to every registered reader and everything is released when there is none; in thorough some runs add the >65534-entry encoding scenario. distinct = distinct operation sequences",
-		Assume:   []string{"the in-system call sequences are exercised by every other engine through the real DB (their accounting oracles), not by a shadow specification"}})
+		Assume:   []string{"run indices 0,1 mod 4: direct arm as described; 2 mod 4: in-system arm - a seeded modelsim history with the freelist of the real DB wrapped by an observer (hook H7) that checks every Allocate/Free/ReleasePendingPages/Rollback+Reload result against the allocator's state before the call; 3 mod 4: the same observer during faultsim's failing commits (rollback restores the prior state)"}})
 }
